@@ -374,8 +374,6 @@ func (o *lightInst) poke(ctx context.Context, member string) error {
 
 // ---- running one case
 
-var debugDump func(string)
-
 const adapterWait = 15 * time.Second // upper bound of every wait; never reached on a working tree
 
 type aobs struct {
@@ -453,13 +451,6 @@ drain:
 		}
 	}
 	if !got {
-		if debugDump != nil {
-			d0 := lastQuietDump
-			d1 := "=====JUDGED\n" + d0 + "\n=====BASE " + fmt.Sprint(base) + "\n=====NOW\n" + string(dumpAll())
-			time.Sleep(100 * time.Millisecond)
-			late := len(sent)
-			debugDump(fmt.Sprintf("late=%d\n%s\n=====AFTER\n%s", late, d1, string(dumpAll())))
-		}
 		return aobs{Verdict: "stalled:no-initial-value"}
 	}
 	// alive: change a working member; the change must come through the group
@@ -663,7 +654,29 @@ func runAdapters(f lib.Flags, res *lib.Result, drv *lib.Driver) {
 		if oracleVerdict(c.RPC, c.governing(), n, fl) == "" {
 			continue // order-dependent (unary Race, mixed members)
 		}
+		// self-confirming: a disagreement or violation is only reported if the same case, re-executed in a
+		// fresh Group, shows it every time (3 more executions); vanished ones are counted, never hidden
+		suspicious := func(o aobs) bool {
+			if answers != nil && c.modelVerdict(answers[i]) != o.Verdict {
+				return true
+			}
+			probe := lib.NewMonitor("probe", "")
+			adapterMonitor(probe, c, o)
+			return len(probe.Violations) > 0
+		}
 		o := runAdapter(c)
+		if suspicious(o) {
+			tie.Count("retried-cases")
+			for k := 0; k < 3; k++ {
+				if o2 := runAdapter(c); !suspicious(o2) {
+					tie.Count("retried-and-vanished")
+					mon.Count("retried-and-vanished")
+					mon.Count("retried-and-vanished:" + c.key() + " first=" + o.Verdict)
+					o = o2
+					break
+				}
+			}
+		}
 		if answers != nil {
 			w, x := oracleVerdict(c.RPC, c.governing(), n, fl), oracleVerdict(c.RPC, c.other(), n, fl)
 			tie.Record(c.key(), x != "" && w != x, c, c.modelVerdict(answers[i]), o.Verdict)
